@@ -66,10 +66,33 @@ class Registry:
         return c
 
     def call_spec(self, I, f, c, args, kwargs):
+        """the callee's spec stands in for its body - but only where the callee's explicit preconditions are proved
+        at this call site; otherwise NotImplemented is returned and the caller executes the real body"""
         sf = I.get_function(c.spec)
         # the spec takes the same parameters as the real function; bind through the real signature
         # so that defaults of the real function are used
         local = I.bind_args(f, args, kwargs)
+        # (1) only configurations that were verified: a parameter the contract enumerates (doShrink in [False]) must
+        #     have one of the enumerated values at this call
+        for key, values in (c.configs or {}).items():
+            if key in local and all(v is None or isinstance(v, (bool, int, str)) for v in values) and "sym" not in values:
+                actual = local[key]
+                if is_z3(actual) or not any(actual is v or (type(actual) is type(v) and actual == v) for v in values):
+                    I.spec_declined = getattr(I, "spec_declined", 0) + 1
+                    return NotImplemented
+        # (2) the explicit preconditions, proved from the caller's path (full solver budget: a verdict that depends
+        #     on machine load would make the two sides of a refinement disagree)
+        if c.requires:
+            S = Sym(I, c.spec_module)
+            for text in c.requires:
+                try:
+                    cond = I.pure(S.expr_fn(text, [], dict(local)))
+                    ok = I.ctx.entails(cond)
+                except (Unsupported, Raise):
+                    ok = False
+                if not ok:
+                    I.spec_declined = getattr(I, "spec_declined", 0) + 1
+                    return NotImplemented
         a = f.node.args
         params = [p.arg for p in a.posonlyargs + a.args + a.kwonlyargs]
         I.spec_uses.add(c.target)
@@ -519,7 +542,7 @@ def verify_config(I, c, fn, specf, cfg):
                                               ms=1000 * (time.time() - t1), kind="raises"))
                     else:
                         g = conds[en]
-                        ok_ = ctx.entails(g)
+                        ok_ = ctx.entails(g, patient=True)
                         model, status = (None, None) if ok_ else model_to_inputs(I, ctx, g)
                         res.append(Obligation(oname, c.target, cfg, "discharged" if ok_ else
                                               ("failed" if status == "sat" else "undecided"),
@@ -527,7 +550,7 @@ def verify_config(I, c, fn, specf, cfg):
                                               ms=1000 * (time.time() - t1), kind="raises"))
                 else:
                     g = z3.And([z3.Not(v) for v in conds.values()]) if conds else z3.BoolVal(True)
-                    ok_ = ctx.entails(g)
+                    ok_ = ctx.entails(g, patient=True)
                     model, status = (None, None) if ok_ else model_to_inputs(I, ctx, g)
                     res.append(Obligation(oname, c.target, cfg, "discharged" if ok_ else
                                           ("failed" if status == "sat" else "undecided"),
@@ -547,7 +570,7 @@ def verify_config(I, c, fn, specf, cfg):
             try:
                 f = S.expr_fn(text, [], env)
                 g = I.pure(f)
-                if ctx.entails(g):
+                if ctx.entails(g, patient=True):
                     res.append(Obligation("%s#%d:ensures %s" % (tag, k, ename), c.target, cfg, "discharged", text,
                                           ms=1000 * (time.time() - t1), kind="ensures"))
                 else:
